@@ -1,0 +1,83 @@
+//! Expansion recorder, compiled only under `--cfg audunhalland_entrait_verif`.
+//!
+//! Appends one BEGIN record (variant, call site, attribute tokens, input tokens) before the
+//! macro does any work and one END record (output tokens) after it, to the file
+//! `${ENTRAIT_VERIF_DUMP}.<pid>`. A BEGIN without END is a panic inside the macro.
+//! No behaviour change: the tokens returned to the compiler are untouched.
+
+use std::cell::Cell;
+use std::io::Write;
+
+thread_local! {
+    static VARIANT: Cell<&'static str> = const { Cell::new("entrait") };
+    static ACTIVE: Cell<bool> = const { Cell::new(false) };
+}
+
+pub fn set_variant(variant: &'static str) {
+    VARIANT.with(|v| v.set(variant));
+}
+
+/// true while the recording wrapper is running the real `invoke`
+pub fn active() -> bool {
+    ACTIVE.with(|a| a.get())
+}
+
+/// Marks the wrapper as running; reset on drop, also when the macro unwinds from a panic.
+pub struct ActiveGuard;
+
+impl ActiveGuard {
+    pub fn new() -> Self {
+        ACTIVE.with(|a| a.set(true));
+        ActiveGuard
+    }
+}
+
+impl Drop for ActiveGuard {
+    fn drop(&mut self) {
+        ACTIVE.with(|a| a.set(false));
+    }
+}
+
+fn append(bytes: &[u8]) {
+    let prefix = match std::env::var("ENTRAIT_VERIF_DUMP") {
+        Ok(prefix) if !prefix.is_empty() => prefix,
+        _ => return,
+    };
+    let path = format!("{}.{}", prefix, std::process::id());
+    if let Ok(mut file) = std::fs::OpenOptions::new()
+        .create(true)
+        .append(true)
+        .open(path)
+    {
+        let _ = file.write_all(bytes);
+    }
+}
+
+fn field(buf: &mut Vec<u8>, name: &str, text: &str) {
+    buf.extend_from_slice(format!("@@{} {}\n", name, text.len()).as_bytes());
+    buf.extend_from_slice(text.as_bytes());
+    buf.push(b'\n');
+}
+
+pub fn begin(attr: &proc_macro::TokenStream, input: &proc_macro::TokenStream) {
+    let span = proc_macro::Span::call_site();
+    let mut buf = Vec::new();
+    buf.extend_from_slice(
+        format!(
+            "@@BEGIN {} {}:{}\n",
+            VARIANT.with(|v| v.get()),
+            span.file(),
+            span.line()
+        )
+        .as_bytes(),
+    );
+    field(&mut buf, "ATTR", &attr.to_string());
+    field(&mut buf, "INPUT", &input.to_string());
+    append(&buf);
+}
+
+pub fn end(output: &proc_macro::TokenStream) {
+    let mut buf = Vec::new();
+    field(&mut buf, "END", &output.to_string());
+    append(&buf);
+}
